@@ -33,6 +33,7 @@ type Config struct {
 	NoModelGuide bool
 	FastTimeoutMs int
 	NSamples     int
+	NoMerge      bool
 }
 
 type ModelFn func(in *Interp, caller *frame, fn *ssa.Function, args []Val) Val
@@ -193,8 +194,28 @@ func (e *Engine) noteUnwind(s string) {
 	e.Unwinds[s]++
 	e.mu.Unlock()
 }
+// initAllow: standard-library / dependency packages whose initialisers are executed.
+// Every other package outside the repository module keeps zero-valued globals (their
+// initialisers reach reflect, the OS or the runtime); the models stand for them.
+var initAllow = map[string]bool{
+	"errors": true, "io": true, "bufio": true, "bytes": true, "strings": true, "strconv": true,
+	"unicode": true, "unicode/utf8": true, "encoding/base64": true, "encoding/binary": true,
+	"path": true, "sort": true, "math": true, "math/bits": true, "slices": true, "maps": true,
+	"net/url": true, "io/fs": true, "context": true,
+	"github.com/zishang520/engine.io-go-parser/packet": true,
+	"github.com/zishang520/engine.io-go-parser/parser": true,
+	"github.com/zishang520/engine.io-go-parser/utils": true,
+}
+
 func (e *Engine) skipInit(pkg *ssa.Package) bool {
-	return e.SkipInitPkgs[pkg.Pkg.Path()]
+	p := pkg.Pkg.Path()
+	if e.SkipInitPkgs[p] {
+		return true
+	}
+	if strings.HasPrefix(p, repoMod) || initAllow[p] {
+		return false
+	}
+	return true
 }
 
 func (e *Engine) lookupModel(fn *ssa.Function) ModelFn {
@@ -288,6 +309,7 @@ type Interp struct {
 	injBudget int
 	inInjection bool
 	yieldCount int
+	crashStack []string
 }
 
 type mutexState struct {
@@ -328,9 +350,16 @@ func (e *Engine) runPath(sol, sol2 *smt.Solver, item WorkItem) (res PathResult) 
 			res = PathResult{"panic", p.msg}
 			in.reportPanic(p)
 		case unsupportedErr:
-			res = PathResult{"unsupported", p.msg}
+			res = PathResult{"unsupported", p.msg + " | ssa stack: " + strings.Join(in.crashStack, " < ")}
 		default:
-			res = PathResult{"internal", fmt.Sprintf("%v\n%s", r, debug.Stack())}
+			gs := strings.Split(string(debug.Stack()), "\n")
+			var keep []string
+			for _, l := range gs {
+				if strings.Contains(l, "/verif/tool/sym/") && !strings.Contains(l, "exec.go:2") && !strings.Contains(l, "exec.go:3") && len(keep) < 6 {
+					keep = append(keep, strings.TrimSpace(l))
+				}
+			}
+			res = PathResult{"internal", fmt.Sprintf("%v | interp: %s | ssa stack: %s", r, strings.Join(keep, " < "), strings.Join(in.crashStack, " < "))}
 		}
 		if in.solverOpen || in.modelScope {
 			sol.ResetScopes()
